@@ -1,5 +1,5 @@
 /-
-C06, well-formedness of form rows, shard 01.
+C06, well-formedness and branch/terminal features of form rows, shard 01.
 -/
 import AvoVerif.Model.Instr
 import AvoVerif.Gen.FormsMeta
@@ -9,6 +9,11 @@ open Avo Avo.Instr Avo.Gen
 set_option maxRecDepth 1000000
 
 theorem forms_01_wf : forms_01.all (Form.wf formsMeta) = true := by
+  decide +kernel
+
+/-- the feature column of every row says what the mnemonic of its opcode says (`J…` = branch, conditional unless
+`JMP`; `RET` = terminal; nothing else) -/
+theorem forms_01_feat : forms_01.all (Form.featOK formsMeta) = true := by
   decide +kernel
 
 end Avo.C06T
